@@ -22,7 +22,9 @@ RULE = ("one run = one drawn device state (7 hashes, difficulty, 3 flag bytes, c
         "minimum difficulty, network, per-path keys, heartbeat material with DER shapes) queried "
         "through getPubKey x6, blockchainState, blockchainParameters, signerHeartbeat (a second round after "
         "the state advanced or the device was swapped; in a quarter of the runs one query in four meets a "
-        "link fault and may answer the device error) and one "
+        "link fault and may answer the device error; in a fifth of those runs the fault is an answer that "
+        "arrives after the exchange time-out and stays queued on the handle: what goes wrong until the handle "
+        "is re-opened is the known finding late-answer/reply-for-an-earlier-request) and one "
         "uiHeartbeat mode walk with drawn boot delays / post-exit modes / link-death kinds; "
         "non-trivial = all query kinds answered; distinct = tuple (difficulty length class, "
         "flag bytes, network, DER shapes, walk class, initial mode)")
@@ -181,8 +183,20 @@ def run_one(ch, cfg):
     viol = []
     answered = 0
     faulty_run = ch.draw(4, "link-faults") == 1
+    # one faulty run in five: the fault is an answer that arrives after the host's time-out and stays
+    # queued on the handle (sim/hidlink.py `timeout_late`).  Whatever goes wrong while such an answer
+    # is still on the handle (no re-open since) is one finding, reported under one signature
+    late_run = faulty_run and ch.draw(5, "late-answer-run") == 1
+    stale = {}
+
+    def is_stale():
+        return "handles" in stale and w.link.handles == stale["handles"]
 
     def bad(sig, detail):
+        if is_stale():
+            detail = "%s: %s (after the late answer to exchange %s stayed on the handle)" % (
+                sig, detail, stale.get("at"))
+            sig = "late-answer/reply-for-an-earlier-request"
         viol.append((sig, detail))
 
     def ask(obj):
@@ -204,8 +218,12 @@ def run_one(ch, cfg):
                     obj.get("command") in ("getPubKey",):
                 arm["kind"] = ("sw", 0x6A8F)     # (a status outside the device's range ends the manager
                 #                                   on getPubKey / sign by design: not this check's subject)
+            if late_run:
+                arm["kind"] = "timeout_late"
         rep, exc = w.request(obj)
         fired = arm.get("fired")
+        if fired == "timeout_late" and not is_stale():
+            stale["handles"], stale["at"] = w.link.handles, arm.get("at")
         arm.pop("at", None)
         arm["cooldown"] = bool(fired)
         # a device-side error status (injected) may be reported with whatever negative code documents it
